@@ -96,7 +96,7 @@ CHECKS = {
    engine="E1-style: real type relation run by qvdump on real type tables + z3 over a symbolic value tree (sqvm/typesem.py)",
    technique="validation of every verdict of the real is_compatible / types_overlap on the real type tables of compiled programs: the set-theoretic meaning of each type is encoded as an SMT formula over a symbolic bounded value tree and the solver searches for a value on the wrong side of the verdict; models are re-judged by a second plain evaluator",
    category="translation_validation",
-   text="PER VERDICT, VALUES DECIDED BY THE SOLVER. The quantifier over types is instantiated by the real type tables of a program corpus (generated type families: all pairs of 36 type expressions incl. partial, recursive and optional types; std; examples; thorough adds test-suite and spec sources) - up to 14 (quick) / 28 (thorough) distinct closed first-order types per program, all ordered pairs. For each pair the real functions are run; then, over EVERY value tree to depth 3: assignable => no value in A outside B; not overlapping => no common value; plus reflexivity and transitivity of the real relation over every triple. Function/process/resource/generic types, unguarded cycles and narrowing's intersect/complement (private to the compiler crate) are not covered; a type pair no corpus table contains is not checked.",
+   text="PER VERDICT, VALUES DECIDED BY THE SOLVER. The quantifier over types is instantiated by the real type tables of a program corpus (generated type families: all pairs of 36 type expressions incl. partial, recursive and optional types; std; examples; thorough adds test-suite and spec sources) - up to 14 (quick) / 28 (thorough) distinct closed first-order types per program, all ordered pairs. For each pair the real functions are run; then, over EVERY value tree to depth 3: assignable => no value in A outside B; not overlapping => no common value; plus reflexivity and transitivity of the real relation over every triple. A second family stresses the coinductive machinery: 169 tuples over two recursive lists, their one-step unfoldings and cells against every union of two such tuples, both directions. Narrowing's intersect_types / compute_complement (reached through the cfg(quiver_verif) re-export) are run on the same pairs: no value of A and B outside the intersection, no value of A not in B outside the complement. Function/process/resource/generic types and unguarded cycles are not covered; a type pair no corpus table or family contains is not checked.",
    design_ref="DESIGN.md §4 C08/C09",
    note="Trusted: sqvm/typesem.py (the meaning of types: partial types closed-world over the program's tuples; under/over approximation at the depth limit so that every reported value is real), z3.",
  ),
